@@ -12,6 +12,7 @@ use std::time::Instant;
 use serde_json::{json, Value};
 
 pub mod alloc;
+pub mod guarded;
 
 pub fn verif_root() -> PathBuf {
     PathBuf::from(std::env::var("VERIF_ROOT").unwrap_or_else(|_| "/verif".into()))
